@@ -1260,18 +1260,30 @@ def class_tables(rep=None, only_rules=None, bad=None, stats=None):
                     bad('C14-field-tables', f'{m.label}: {cname}.__init__ stores {stores.get(f)!r} in self.{f}')
             if not any(isinstance(x, ast.Call) and ast.unparse(x.func) == 'ParsedObject.__init__' for x in ast.walk(init)):
                 bad('C14-field-tables', f'{m.label}: {cname}.__init__ does not initialise ParsedObject')
-            rets = [x for x in ast.walk(rp) if isinstance(x, ast.Return)]
+            # repr: whatever the notation (f-string, %, .format, +), the rendered parts are
+            # Name(f1=<self.f1!r>, f2=<self.f2!r>, ...) for every possible field value
             ok = False
-            if len(rets) == 1 and isinstance(rets[0].value, ast.JoinedStr):
-                vals = rets[0].value.values
-                attrs = [ast.unparse(v.value) for v in vals if isinstance(v, ast.FormattedValue)]
-                lit = ''.join(v.value for v in vals if isinstance(v, ast.Constant))
-                kws = [k for k in lit[len(cname) + 1:-1].replace(' ', '').split(',') if k]
-                ok = attrs == [f'self.{f}' for f in fields] and lit.startswith(cname + '(') and lit.endswith(')') \
-                    and kws == [f'{f}=' for f in fields] \
-                    and all(v.conversion == ord('r') for v in vals if isinstance(v, ast.FormattedValue))
-            elif len(rets) == 1 and isinstance(rets[0].value, ast.Constant) and not fields:
-                ok = rets[0].value.value == f'{cname}()'
+            rps = P.Enumerator().function(rp)
+            if len(rps) == 1 and rps[0].end[0] == 'return':
+                parts = P.render_parts(rps[0].end[1])
+                if parts is not None:
+                    SELF_ = ('PARAM', rp.args.args[0].arg)
+                    fm = [x for x in parts if x[0] == 'fmt']
+                    segs, cur = [], ''
+                    for x in parts:
+                        if x[0] == 'lit':
+                            cur += x[1]
+                        else:
+                            segs.append(cur)
+                            cur = ''
+                    segs.append(cur)
+                    if not fields:
+                        ok = not fm and ''.join(segs).strip() == f'{cname}()'
+                    else:
+                        ok = [x[1] for x in fm] == [('ATTR', SELF_, f) for f in fields] \
+                            and all(x[2] == 'r' for x in fm) and len(segs) == len(fields) + 1 \
+                            and segs[0].replace(' ', '') == f'{cname}({fields[0]}=' and segs[-1].strip() == ')' \
+                            and all(segs[i].replace(' ', '') == f',{fields[i]}=' for i in range(1, len(fields)))
             if not ok:
                 bad('C14-field-tables', f'{m.label}: {cname}.__repr__ is not {cname}(<field>=<value!r>, ...) over '
                                         f'_fields in order')
